@@ -383,33 +383,39 @@ def World.register (w : World) (k : Which) (u n : Nat) (fx : Bool) : World :=
 def World.bindLst (w : World) (k : Which) (u : Nat) (L : List Nat) : World :=
   w.put k { (w.get k) with sd := (w.get k).sd.setLst u L }
 
-structure InitSpec (w w' : World) (k : Which) : Prop where
+structure InitSpec (w w' : World) (k : Which) (u : Nat) : Prop where
   pre : w'.pre = true → w.pre = true
   nS : w.nS ≤ w'.nS
   nU : w'.nU = w.nU
   nreal : (∀ s, w.nS ≤ s → w.real s = false) → (∀ s, w'.nS ≤ s → w'.real s = false)
   real_old : ∀ s, s < w.nS → w'.real s = w.real s
   other : w'.side k.other = w.side k.other
+  /-- fixedness and size of the port lists of every unit other than the one being built are untouched -/
+  fx : ∀ v, v ≠ u → (w'.side k).fixed v = (w.side k).fixed v ∧ (w'.side k).size v = (w.side k).size v
 
-theorem InitSpec.trans {a b c : World} {k : Which} (h1 : InitSpec a b k) (h2 : InitSpec b c k) :
-    InitSpec a c k :=
+theorem InitSpec.trans {a b c : World} {k : Which} {u : Nat} (h1 : InitSpec a b k u) (h2 : InitSpec b c k u) :
+    InitSpec a c k u :=
   ⟨fun h => h1.pre (h2.pre h), Nat.le_trans h1.nS h2.nS, h2.nU.trans h1.nU,
    fun h => h2.nreal (h1.nreal h),
    fun s hs => (h2.real_old s (Nat.lt_of_lt_of_le hs h1.nS)).trans (h1.real_old s hs),
-   h2.other.trans h1.other⟩
+   h2.other.trans h1.other,
+   fun v hv => ⟨(h2.fx v hv).1.trans (h1.fx v hv).1, (h2.fx v hv).2.trans (h1.fx v hv).2⟩⟩
 
-theorem LoopExt.toInit {a b : World} {k : Which} {u : Nat} (h : LoopExt a b k u) : InitSpec a b k :=
-  ⟨fun hp => h.pre ▸ hp, h.nS, h.nU, h.nreal, h.real_old, h.other⟩
+theorem LoopExt.toInit {a b : World} {k : Which} {u : Nat} (h : LoopExt a b k u) : InitSpec a b k u :=
+  ⟨fun hp => h.pre ▸ hp, h.nS, h.nU, h.nreal, h.real_old, h.other,
+   fun v _ => ⟨by rw [h.fixed], by rw [h.size]⟩⟩
 
 theorem register_init (w : World) (k : Which) (u n : Nat) (fx : Bool) :
-    InitSpec w (w.register k u n fx) k :=
+    InitSpec w (w.register k u n fx) k u :=
   ⟨by simp [World.register], by simp [World.register], by simp [World.register],
-   by simp [World.register], by simp [World.register], by simp [World.register]⟩
+   by simp [World.register], by simp [World.register], by simp [World.register],
+   fun v hv => by simp [World.register, hv]⟩
 
 theorem bindLst_init (w : World) (k : Which) (u : Nat) (L : List Nat) :
-    InitSpec w (w.bindLst k u L) k :=
+    InitSpec w (w.bindLst k u L) k u :=
   ⟨by simp [World.bindLst], by simp [World.bindLst], by simp [World.bindLst],
-   by simp [World.bindLst], by simp [World.bindLst], by simp [World.bindLst]⟩
+   by simp [World.bindLst], by simp [World.bindLst], by simp [World.bindLst],
+   fun v _ => by simp [World.bindLst]⟩
 
 theorem register_pinv {nU : Nat} {w : World} {k : Which} {u n : Nat} {fx : Bool}
     (h : SInv u All (w.get k)) (hu : u < nU) :
@@ -466,9 +472,11 @@ theorem junkInit_side (w : World) (k : Which) (u n : Nat) :
       ((w.get k).newMissings u n).1.sd.setLst u ((w.get k).newMissings u n).2 := by
   simp [World.junkInit, World.bindLst, put_get]
 
-theorem junkInit_init (w : World) (k : Which) (u n : Nat) : InitSpec w (w.junkInit k u n) k := by
+theorem junkInit_init (w : World) (k : Which) (u n : Nat) : InitSpec w (w.junkInit k u n) k u := by
   have M := newMissings_spec (w.get k) u n
-  refine ⟨fun hp => ?_, ?_, ?_, ?_, ?_, ?_⟩
+  refine ⟨fun hp => ?_, ?_, ?_, ?_, ?_, ?_, fun v _ => ?_⟩
+  rotate_right
+  · rw [junkInit_side, setLst_fixed, setLst_size, M.fixed, M.size]; simp
   · have : (w.junkInit k u n).pre = w.pre := by simpa [World.junkInit, World.bindLst] using M.pre_eq
     rw [← this]; exact hp
   · simp [World.junkInit, World.bindLst, M.next]
@@ -544,31 +552,32 @@ theorem put_bindLst (w : World) (k : Which) (sw1 : SW) (u : Nat) (L : List Nat) 
     w.put k { sw1 with sd := sw1.sd.setLst u L } = (w.put k sw1).bindLst k u L := by
   cases k <;> rfl
 
-theorem put_init {w : World} {k : Which} {sw : SW} (h : Ext (w.get k) sw) :
-    InitSpec w (w.put k sw) k :=
+theorem put_init {w : World} {k : Which} {u : Nat} {sw : SW} (h : Ext (w.get k) sw) :
+    InitSpec w (w.put k sw) k u :=
   ⟨fun hp => by simpa using h.pre (by simpa using hp), by simpa using h.next, by simp,
    fun hn s hs => by
      simp only [put_nS, put_real] at hs ⊢
-     exact hn s (Nat.le_trans (by simpa using h.next) hs), fun _ _ => by simp, by simp⟩
+     exact hn s (Nat.le_trans (by simpa using h.next) hs), fun _ _ => by simp, by simp,
+   fun v _ => ⟨by simpa using congrFun h.fixed v, by simpa using congrFun h.size v⟩⟩
 
-theorem InitSpec.refl (w : World) (k : Which) : InitSpec w w k :=
-  ⟨id, Nat.le_refl _, rfl, id, fun _ _ => rfl, rfl⟩
+theorem InitSpec.refl (w : World) (k : Which) (u : Nat) : InitSpec w w k u :=
+  ⟨id, Nat.le_refl _, rfl, id, fun _ _ => rfl, rfl, fun _ _ => ⟨rfl, rfl⟩⟩
 
 theorem freshStreams_init (w : World) (k : Which) (u : Nat) (acc : List Nat) (j : Nat) :
-    InitSpec w (w.freshStreams k u acc j).1 k := by
+    InitSpec w (w.freshStreams k u acc j).1 k u := by
   induction j generalizing w acc with
-  | zero => exact InitSpec.refl _ _
+  | zero => exact InitSpec.refl _ _ _
   | succ j ih =>
     have heq : w.freshStreams k u acc (j + 1) = (w.dockNew k u).freshStreams k u (w.nS :: acc) j := rfl
     rw [heq]
     exact (dockNew_ext w k u).toInit.trans (ih _ _)
 
 theorem loadItems_init {w w' : World} {k : Which} {u : Nat} {fx : Bool} {acc ss : List Nat}
-    {l : List Item} (hl : w.loadItems k u fx acc l = .ok (w', ss)) : InitSpec w w' k := by
+    {l : List Item} (hl : w.loadItems k u fx acc l = .ok (w', ss)) : InitSpec w w' k u := by
   induction l generalizing w acc with
-  | nil => simp only [World.loadItems] at hl; cases hl; exact InitSpec.refl _ _
+  | nil => simp only [World.loadItems] at hl; cases hl; exact InitSpec.refl _ _ _
   | cons it r ih =>
-    have hnew : ∀ acc', (w.dockNew k u).loadItems k u fx acc' r = .ok (w', ss) → InitSpec w w' k :=
+    have hnew : ∀ acc', (w.dockNew k u).loadItems k u fx acc' r = .ok (w', ss) → InitSpec w w' k u :=
       fun _ hl' => (dockNew_ext w k u).toInit.trans (ih hl')
     cases it with
     | strm s =>
@@ -584,10 +593,10 @@ theorem loadItems_init {w w' : World} {k : Which} {u : Nat} {fx : Bool} {acc ss 
             (((w.get k).newMissing u).2 :: acc) r = .ok (w', ss) := hl
         exact (put_init (newMissing_ext _ u)).trans (ih hl')
 
-theorem setPre_init (w : World) (k : Which) (c : Bool) :
-    InitSpec w { w with pre := w.pre && c } k :=
+theorem setPre_init (w : World) (k : Which) (u : Nat) (c : Bool) :
+    InitSpec w { w with pre := w.pre && c } k u :=
   ⟨fun hp => by simp only [Bool.and_eq_true] at hp; exact hp.1, Nat.le_refl _, rfl,
-   id, fun _ _ => rfl, by cases k <;> rfl⟩
+   id, fun _ _ => rfl, by cases k <;> rfl, fun _ _ => by cases k <;> exact ⟨rfl, rfl⟩⟩
 
 theorem initGiven_spec {nU : Nat} {wP w' : World} {k : Which} {u n : Nat} {fx : Bool}
     {l : List Item}
@@ -605,7 +614,7 @@ theorem initGiven_spec {nU : Nat} {wP w' : World} {k : Which} {u n : Nat} {fx : 
         (wP.loadItems k u false [] l) >>= fun x =>
           Except.ok (x.1.put k { (x.1.get k) with sd := (x.1.get k).sd.setLst u x.2 })) =
       Except.ok w') :
-    InitSpec wP w' k ∧
+    InitSpec wP w' k u ∧
     (PInv nU wP k u [] → (wP.side k).lst u = [] → (wP.side k).fixed u = fx → (wP.side k).size u = n →
       u < nU → (∀ s ∈ givens l, s < wP.nS) → (givens l).Nodup →
       (∀ s ∈ givens l, (wP.side k).loc s ≠ some u) →
@@ -706,7 +715,7 @@ theorem initGiven_spec {nU : Nat} {wP w' : World} {k : Which} {u n : Nat} {fx : 
 
 theorem initSeq_spec {nU : Nat} {w w' : World} {k : Which} {u n : Nat} {fx : Bool} {arg : PortsArg}
     (h : w.initSeq k u n fx arg = .ok w') :
-    InitSpec w w' k ∧
+    InitSpec w w' k u ∧
     (w'.pre = true → SInv u All (w.get k) → u < nU → (∀ s ∈ arg.ids, s < w.nS) →
       SInv nU All (w'.get k)) := by
   unfold World.initSeq at h
@@ -740,7 +749,7 @@ theorem initSeq_spec {nU : Nat} {w w' : World} {k : Which} {u n : Nat} {fx : Boo
     simpa [World.junkInit, World.bindLst, put_get] using this
   | given l =>
     have G := initGiven_spec (nU := nU) h
-    refine ⟨((register_init w k u n fx).trans ((setPre_init _ k _).trans (setPre_init _ k _))).trans G.1,
+    refine ⟨((register_init w k u n fx).trans ((setPre_init _ k u _).trans (setPre_init _ k u _))).trans G.1,
       fun hp hI hu hb => ?_⟩
     obtain ⟨hP, hfx, hsz, hlu⟩ := register_pinv (n := n) (fx := fx) hI hu
     have hpP := G.1.pre hp
@@ -792,7 +801,16 @@ theorem newUnit_wstep {w w' : World} {ni no : Nat} {fi fo : Bool} {ai ao : Ports
   have ho1 : w1.outs = w.outs := S1.1.other
   have hi2 : w'.ins = w1.ins := S2.1.other
   refine ⟨⟨fun hp => S1.1.pre (S2.1.pre hp), Nat.le_trans hnS1 S2.1.nS, by omega,
-    fun s hs => (S2.1.real_old s (Nat.lt_of_lt_of_le hs hnS1)).trans (S1.1.real_old s hs)⟩,
+    fun s hs => (S2.1.real_old s (Nat.lt_of_lt_of_le hs hnS1)).trans (S1.1.real_old s hs),
+    fun k' v hv => by
+      have hne : v ≠ w.nU := Nat.ne_of_lt hv
+      have f1 := S1.1.fx v hne
+      have f2 := S2.1.fx v hne
+      cases k'
+      · show w'.ins.fixed v = w.ins.fixed v ∧ w'.ins.size v = w.ins.size v
+        rw [hi2]; exact f1
+      · show w'.outs.fixed v = w.outs.fixed v ∧ w'.outs.size v = w.outs.size v
+        rw [← ho1]; exact f2⟩,
     fun hp hG ⟨hb1, hb2⟩ => ?_⟩
   have hp1 := S2.1.pre hp
   have I1 : SInv (w.nU + 1) All (w1.get .i) := S1.2 hp1 hG.ins (Nat.lt_succ_self _) hb1
